@@ -16,6 +16,7 @@ import (
 	"encoding/json"
 	"fmt"
 	"math"
+	"strings"
 	"sync"
 	"sync/atomic"
 
@@ -299,6 +300,17 @@ func checkBigx(name string) *failure {
 	twin, _ := parseSet(text)
 	if f := pairCheck(set, twin, "S", "twin of S", true, true); f != nil {
 		return f
+	}
+	// the same set as the server prints it (a line break behind every comma) and as
+	// clients paste it
+	for _, sep := range []string{",\n", ", ", ",\r\n", " ,\t"} {
+		alt, perr := parseSet(strings.ReplaceAll(text, ",", sep))
+		if perr != "" {
+			return &failure{"parse-roundtrip", fmt.Sprintf("the canonical text with %q between the servers: %s", sep, clip(perr))}
+		}
+		if f := pairCheck(set, alt, "S", fmt.Sprintf("S written with %q between the servers", sep), true, true); f != nil {
+			return f
+		}
 	}
 	// the busiest server
 	busy := 0
